@@ -2,6 +2,8 @@ import UralModel.Props.C04Whole
 import UralModel.Props.C05Whole
 import UralModel.Props.C06Whole
 import UralModel.Lemmas.Platform
+import UralModel.Props.C18
+import UralModel.Props.C09
 /-!
 # `platform_aware=True`, concretely (C04, C05, C06)
 
@@ -699,5 +701,245 @@ theorem platform_idempotent (puny : Str → Str) (t : HostnameTrieSet.T) (hT : Y
 theorem platform_idempotent_module (puny : Str → Str) (u : Str) (hu : FacebookReparsable u) :
     platformConcrete puny (platformConcrete puny u) = platformConcrete puny u :=
   platform_idempotent puny _ (Ural.Props.C19.Youtube.youtube_trie_knows_www puny) u hu
+
+end Ural.Props.C05
+
+namespace Ural.Props.C05
+open Ural Ural.Py Ural.UrlParts Ural.Quote Ural.Normalize Ural.Fingerprint Ural.NormBridge Ural.Platform
+
+/-! ## "not a platform url" is a property of the parsed hostname -/
+
+/-- "`h` is a facebook host or a youtube host": `FACEBOOK_DOMAIN_RE.search(h)` or
+`YOUTUBE_DOMAINS_TRIE.match` on the hostname `h` -/
+def platformHost (puny : Str → Str) (t : HostnameTrieSet.T) (h : Str) : Bool :=
+  Facebook.reSearch Gen.C19Facebook.FACEBOOK_DOMAIN_RE h ||
+    HostnameTrieSet.matchHost isSpecialHost puny t (some h)
+
+/-- `get_hostname` of `ural/facebook.py`'s import is the `get_hostname` of C18 -/
+theorem facebook_get_hostname_eq (url : Str) :
+    Facebook.get_hostname url = .ok (Sites.get_hostname url) := by
+  unfold Facebook.get_hostname Facebook.safeUrlsplitE Sites.get_hostname Sites.parts Sites.get_hostname_o
+  cases hs : safe_urlsplit url with
+  | none => rfl
+  | some r =>
+    simp only [Functor.map, Except.map, Facebook.catchValueError, Option.map_some, Sites.partsOf,
+      Sites.hostnameOf, Facebook.hostnameOf]
+    by_cases he : Py.pyHostname r.netloc = []
+    · simp [he]
+    · have : (Py.pyHostname r.netloc).isEmpty = false := by
+        cases hx : Py.pyHostname r.netloc with
+        | nil => exact absurd hx he
+        | cons c cs => rfl
+      simp [he, this]
+
+/-- **whether the branch looks at a url at all depends on its parsed hostname only**: for every
+string, "facebook url or youtube url" = "`get_hostname(url)` is a facebook / youtube host" -/
+theorem isPlatformUrl_eq_host (puny : Str → Str) (t : HostnameTrieSet.T) (url : Str) :
+    isPlatformUrl puny t url =
+      match Sites.get_hostname url with
+      | none => false
+      | some h => platformHost puny t h := by
+  unfold isPlatformUrl Facebook.is_facebook_url
+  rw [facebook_get_hostname_eq]
+  unfold Youtube.is_youtube_url Youtube.isYoutubeParsed Youtube.hostnameOf
+  unfold Sites.get_hostname Sites.parts Sites.get_hostname_o
+  cases hs : safe_urlsplit url with
+  | none => rfl
+  | some r =>
+    simp only [Functor.map, Except.map, Option.map_some, Sites.partsOf, Sites.hostnameOf]
+    by_cases he : Py.pyHostname r.netloc = []
+    · simp [he, HostnameTrieSet.matchHost]
+    · simp only [he, if_false, platformHost]
+      cases Facebook.reSearch Gen.C19Facebook.FACEBOOK_DOMAIN_RE (Py.pyHostname r.netloc) <;> simp
+
+/-- **decoys**: for `http://[userinfo@]host[:port]tail` (userinfo / port: any text without
+`/ ? # [ ]` TAB CR LF — `@`, `:` and platform domains allowed in the userinfo —; tail empty or
+starting with `/ ? #`) the branch fires only if the *host text*, lower-cased, is a facebook /
+youtube host — C18's `hostname_ignores_decoys` -/
+theorem isPlatformUrl_of_authority (puny : Str → Str) (t : HostnameTrieSet.T)
+    (ui : Option Str) (h : Str) (port : Option Str) (tail : Str)
+    (hui : ∀ u, ui = some u → ∀ c ∈ u, Sites.authChar c = true)
+    (hh : ∀ c ∈ h, Sites.hostChar c = true) (hne : h ≠ [])
+    (hport : ∀ p, port = some p → ∀ c ∈ p, (Sites.authChar c && c != '@') = true)
+    (ht : Sites.TailOK tail) :
+    isPlatformUrl puny t ("http://".toList ++ (Sites.authority ui h port ++ tail)) =
+      platformHost puny t (lower h) := by
+  rw [isPlatformUrl_eq_host,
+    Ural.Props.C18.hostname_ignores_decoys ui h port tail hui hh hne hport ht]
+
+/-- … and for the `https://`, `//` and bare spellings of the same rest -/
+theorem isPlatformUrl_forms (puny : Str → Str) (t : HostnameTrieSet.T) (rest : Str) :
+    isPlatformUrl puny t ("https://".toList ++ rest) = isPlatformUrl puny t ("http://".toList ++ rest) ∧
+    isPlatformUrl puny t ("//".toList ++ rest) = isPlatformUrl puny t ("http://".toList ++ rest) ∧
+    (protoLen rest = none → isPlatformUrl puny t rest = isPlatformUrl puny t ("http://".toList ++ rest)) := by
+  obtain ⟨h1, h2, h3⟩ := Ural.Props.C18.forms_agree rest
+  simp only [isPlatformUrl_eq_host, Sites.get_hostname, h1, h2, true_and]
+  intro hp
+  rw [h3 hp]
+
+/-- **the youtube trie of the module, by its domain list**: an ordinary host is matched iff the
+label list of a listed domain is a whole-label suffix of its label list (C09's `match_url_spec`) -/
+theorem youtube_host_iff (puny : Str → Str) (host : Str) (hne : host ≠ [])
+    (hq : isSpecialHost host = false) :
+    HostnameTrieSet.matchHost isSpecialHost puny (Youtube.youtubeTrie puny) (some host) = true ↔
+      ∃ d ∈ Youtube.domains, (HostnameTrieSet.tok puny d).reverse <:+ (HostnameTrieSet.tok puny host).reverse :=
+  Ural.Props.C09.match_url_spec isSpecialHost puny Youtube.domains
+    Ural.Props.C19.Youtube.youtube_domains_ordinary host hne hq
+
+end Ural.Props.C05
+
+namespace Ural.Props.C05
+open Ural Ural.Py Ural.UrlParts Ural.Quote Ural.Normalize Ural.Fingerprint Ural.NormBridge Ural.Platform
+
+/-! ## (d) the design finding D53 as theorems about the concrete model
+
+KF-C03-2 / KF-C04-4 / KF-C06-4: the rewriting reads the string *before* normalization, so it is
+not invariant under respellings that `normalize_url` itself ignores.  Three members of the
+documented-irrelevant family, each on a pair of spellings that are normalized alike without the
+option and differently with it (closed terms, `decide`; `puny = id`, default options,
+`infer_redirection=False` so that the kernel does not have to unfold the well-founded `infer`). -/
+
+/-- **an escaped path letter**: `/posts/` written `/%70osts/` is not seen by `parse_facebook_url`,
+which then takes the url for the handle `nasa` -/
+theorem d53_escaped_path_letter :
+    normalizeUrlString id id {} false "https://www.facebook.com/nasa/posts/123?x=1".toList =
+      "facebook.com/nasa/posts/123?x=1".toList ∧
+    normalizeUrlString id id {} false "https://www.facebook.com/nasa/%70osts/123?x=1".toList =
+      "facebook.com/nasa/posts/123?x=1".toList ∧
+    normalizeUrlStringPA id {} false "https://www.facebook.com/nasa/posts/123?x=1".toList =
+      "facebook.com/nasa/posts/123".toList ∧
+    normalizeUrlStringPA id {} false "https://www.facebook.com/nasa/%70osts/123?x=1".toList =
+      "facebook.com/nasa".toList := by
+  decide +kernel
+
+/-- **an index file name**: `facebook.com/index.html` is the handle `index.html` for
+`parse_facebook_url` (its canonical url has no query), `facebook.com/` is nothing -/
+theorem d53_index_file_name :
+    normalizeUrlString id id {} false "https://facebook.com/?x=1".toList = "facebook.com?x=1".toList ∧
+    normalizeUrlString id id {} false "https://facebook.com/index.html?x=1".toList = "facebook.com?x=1".toList ∧
+    normalizeUrlStringPA id {} false "https://facebook.com/?x=1".toList = "facebook.com?x=1".toList ∧
+    normalizeUrlStringPA id {} false "https://facebook.com/index.html?x=1".toList = "facebook.com".toList := by
+  decide +kernel
+
+/-- the module's youtube trie does not match a host no listed domain is a whole-label suffix of -/
+theorem not_youtube_host (puny : Str → Str) (host : Str) (hne : host ≠ []) (hq : isSpecialHost host = false)
+    (h : ∀ d ∈ Youtube.domains,
+      ¬ (HostnameTrieSet.tok puny d).reverse <:+ (HostnameTrieSet.tok puny host).reverse) :
+    HostnameTrieSet.matchHost isSpecialHost puny (Youtube.youtubeTrie puny) (some host) = false := by
+  cases hm : HostnameTrieSet.matchHost isSpecialHost puny (Youtube.youtubeTrie puny) (some host) with
+  | false => rfl
+  | true =>
+    obtain ⟨d, hd, hs⟩ := (youtube_host_iff puny host hne hq).mp hm
+    exact absurd hs (h d hd)
+
+/-- `amp-facebook.com` is neither a facebook host (`(?:^|\.)facebook\.` needs a label boundary) nor
+a youtube host: the url is not a platform url (also a non-vacuity witness of `NotPlatform` for the
+module's trie, through the host-level characterisation) -/
+theorem d53_amp_dash_not_platform :
+    NotPlatform id false "https://amp-facebook.com/nasa/posts/123?x=1".toList := by
+  unfold NotPlatform
+  rw [isPlatformUrl_eq_host]
+  have h1 : Sites.get_hostname (ensured false "https://amp-facebook.com/nasa/posts/123?x=1".toList) =
+      some "amp-facebook.com".toList := by decide +kernel
+  rw [h1]
+  simp only [platformHost, Bool.or_eq_false_iff]
+  refine ⟨by decide +kernel, ?_⟩
+  exact not_youtube_host id _ (by decide) (by decide +kernel) (by decide +kernel)
+
+/-- **a label in front of the host**: the `amp-` prefix, which `normalize_url` removes from the
+host, hides the facebook host from the branch -/
+theorem d53_label_in_front_of_host :
+    normalizeUrlString id id {} false "https://facebook.com/nasa/posts/123?x=1".toList =
+      "facebook.com/nasa/posts/123?x=1".toList ∧
+    normalizeUrlString id id {} false "https://amp-facebook.com/nasa/posts/123?x=1".toList =
+      "facebook.com/nasa/posts/123?x=1".toList ∧
+    normalizeUrlStringPA id {} false "https://facebook.com/nasa/posts/123?x=1".toList =
+      "facebook.com/nasa/posts/123".toList ∧
+    normalizeUrlStringPA id {} false "https://amp-facebook.com/nasa/posts/123?x=1".toList =
+      "facebook.com/nasa/posts/123?x=1".toList := by
+  refine ⟨by decide +kernel, by decide +kernel, by decide +kernel, ?_⟩
+  rw [(normalize_pa_of_not_platform id {} false _ d53_amp_dash_not_platform).1]
+  decide +kernel
+
+/-- hence the full statement "the option commutes with the documented-irrelevant respellings" is
+false for the concrete branch (it was only known to be false for *some* `platform`:
+`fullPlatform_false`) -/
+def FullPlatformInvariance : Prop :=
+  ∀ (puny : Str → Str) (o : Normalize.Opts) (ir : Bool) (u v : Str),
+    normalizeUrlString puny id o ir u = normalizeUrlString puny id o ir v →
+      normalizeUrlStringPA puny o ir u = normalizeUrlStringPA puny o ir v
+
+theorem fullPlatformInvariance_false : ¬ FullPlatformInvariance := by
+  intro h
+  have := h id {} false "https://facebook.com/?x=1".toList "https://facebook.com/index.html?x=1".toList
+    (by rw [d53_index_file_name.1, d53_index_file_name.2.1])
+  rw [d53_index_file_name.2.2.1, d53_index_file_name.2.2.2] at this
+  revert this
+  decide
+
+/-- what a youtube parse result makes of the url -/
+def youtubeResultUrl (u : Str) : Except Youtube.Err (Option Youtube.Record) → Str
+  | .ok (some r) => Youtube.recordUrl r
+  | _ => u
+
+/-- the branch on a youtube url, from the result of `parse_youtube_url` -/
+theorem platformWith_youtube (puny : Str → Str) (t : HostnameTrieSet.T) (u : Str)
+    (hf : Facebook.is_facebook_url u = .ok false) (hy : Youtube.is_youtube_url puny t u = true)
+    (res : Except Youtube.Err (Option Youtube.Record))
+    (hp : Youtube.parse_youtube_url puny t u true = res) :
+    platformWith puny t u = youtubeResultUrl u res := by
+  unfold platformWith platformE youtubeRewrite Youtube.normalize_youtube_url
+  rw [hf]
+  simp only [hy, if_true, hp]
+  cases res with
+  | error e => rfl
+  | ok o => cases o <;> rfl
+
+/-- KF-C04-4's own witness (youtube; the two-domain trie of C19's examples, and the fuel form of
+`infer_redirection` inside `parse_youtube_url`): an escaped letter of the video id — the url
+is left alone instead of becoming `https://www.youtube.com/watch?v=abcdefghijk` -/
+theorem d53_youtube_escaped_id :
+    platformWith id Ural.Props.C19.Youtube.smallTrie "https://youtu.be/abcdefghijk?t=3".toList =
+      "https://www.youtube.com/watch?v=abcdefghijk".toList ∧
+    platformWith id Ural.Props.C19.Youtube.smallTrie "https://youtu.be/abcdefghij%6B?t=3".toList =
+      "https://youtu.be/abcdefghij%6B?t=3".toList ∧
+    normalizeUrlString id id {} false "https://youtu.be/abcdefghijk?t=3".toList =
+      normalizeUrlString id id {} false "https://youtu.be/abcdefghij%6B?t=3".toList := by
+  rw [platformWith_youtube _ _ _ (by decide +kernel) (by decide +kernel) _
+        (Ural.Props.C19.Youtube.parse_eq_fuel _ _ _ _),
+      platformWith_youtube _ _ _ (by decide +kernel) (by decide +kernel) _
+        (Ural.Props.C19.Youtube.parse_eq_fuel _ _ _ _)]
+  decide +kernel
+
+/-! ## (b, continued) the hypothesis of idempotence is needed; non-vacuity -/
+
+/-- **without `charsOk` the rewriting is not idempotent**: `v=a%26b` is the video `a&b`, whose url
+`…/watch/?v=a&b` is the video `a` (C19's `excluded_query_chars_fail`) -/
+theorem platform_idempotent_needs_charsOk :
+    platformConcrete id "https://facebook.com/watch/?v=a%26b".toList =
+      "https://www.facebook.com/watch/?v=a&b".toList ∧
+    platformConcrete id "https://www.facebook.com/watch/?v=a&b".toList =
+      "https://www.facebook.com/watch/?v=a".toList ∧
+    ¬ FacebookReparsable "https://facebook.com/watch/?v=a%26b".toList := by
+  refine ⟨by decide +kernel, by decide +kernel, ?_⟩
+  intro h
+  have := h (.video "a&b".toList none) (by decide +kernel)
+  revert this
+  decide +kernel
+
+/-- non-vacuity of (b) and (c): a facebook post url inside the round trip; its canonical url is
+a fixed point of the branch, clean, and `normalize_url(…, platform_aware=True)` of the original
+is `normalize_url` of the canonical url -/
+example :
+    platformConcrete id "https://m.facebook.com/groups/123/permalink/456/?x=1".toList =
+      "https://www.facebook.com/groups/123/permalink/456".toList ∧
+    platformConcrete id "https://www.facebook.com/groups/123/permalink/456".toList =
+      "https://www.facebook.com/groups/123/permalink/456".toList ∧
+    Cleaned (canonicalOf id false "https://m.facebook.com/groups/123/permalink/456/?x=1".toList) ∧
+    normalizeUrlStringPA id {} false "https://m.facebook.com/groups/123/permalink/456/?x=1".toList =
+      "facebook.com/groups/123/permalink/456".toList ∧
+    normalizeUrlString id id {} false "https://www.facebook.com/groups/123/permalink/456".toList =
+      "facebook.com/groups/123/permalink/456".toList := by
+  decide +kernel
 
 end Ural.Props.C05
